@@ -169,7 +169,11 @@ CHECKS = {
              "pinned rejections injected at every position). TLC explores every call sequence inside the bounds, checks "
              "NoDuplicateKeys / BuiltIsFoldOfAccepted / RejectIsNoop on the specification, and emits every behaviour; "
              "the Go harness replays each behaviour on the real builders (basicnode Any/Map/List, bindnode typed map and "
-             "list) comparing the result class of every call and the node read back at every Build.",
+             "list) comparing the result class of every call and the node read back at every Build. TypedAssembler.tla guards "
+             "the same machine with the schema (struct / union / enum / map / list builders of bindnode and of freshly "
+             "generated code, type and representation level; the deferred refusal of a repeated key by generated maps is a "
+             "named deviation, DeferredDupNext); every generic behaviour is also regrouped into closures and run through the "
+             "front ends fluent and fluent/qp (Assembler!AbortsAt); recorded sessions are validated by TLC (AssemblerTrace.tla).",
         design_ref="DESIGN.md section 4, C12",
         note="Bounded (<= 5 values, depth <= 3, 2-3 keys, <= 2 rejections per behaviour); misuse orders are not generated; "
              "trusted: TLC, the projection functions of harness/model (self-tested against a reference node).",
@@ -234,7 +238,9 @@ CHECKS = {
              "cidlink.Memory and fsstore (two sharding/escaping configurations) under adversarial key profiles, scribbles "
              "over the caller's buffer after each put, and watches every filesystem path through the verif hooks plus a "
              "directory diff against a canary. In the other direction random 300-call histories recorded from the real "
-             "stores are validated by TLC against the same specification (StorageTrace.tla).",
+             "stores are validated by TLC against the same specification (StorageTrace.tla). In the thorough tier the "
+             "contract's invariants are also proved with TLAPS for every number of keys, operations and routes "
+             "(StorageProof.tla, 34 obligations).",
         design_ref="DESIGN.md section 4, C17",
         note="<= 4 calls over 2-3 keys exhaustively, 300-call recorded histories over 12 keys; trusted: TLC, hook placement.",
         technique="TLA+ key-value contract; TLC-generated histories replayed into the stores + TLC trace validation of recorded histories",
@@ -248,9 +254,15 @@ CHECKS = {
              "CommittedStays over every interleaving, and emits every behaviour. The harness forces each behaviour through "
              "the real store with blocking hooks (one thread runs between two hooks), kills or fails the operation the "
              "specification says, and compares staging files, destination files and directories with the specification's "
-             "state after every step, every read result and every return value.",
+             "state after every step, every read result and every return value. Go-side drivers cover what TLC does not "
+             "schedule: cancellation before every operation (fscancel), a writer that is a child PROCESS killed with SIGKILL "
+             "before every operation (fskill), the staging directory on another filesystem with a polling reader (fslayout), "
+             "a free-running stress under the race detector. In the thorough tier AtomicVisibility, "
+             "ReaderSeesAbsentOrComplete and AckedIsVisible are also proved with TLAPS for all constants (FsStoreProof.tla, "
+             "66 obligations).",
         design_ref="DESIGN.md section 4, C18",
-        note="2-3 writers, 1 reader, <= 1 crash, <= 1 fault per behaviour; crash = threads abandoned at the hook (in-process); "
+        note="2-3 writers, 1 reader, <= 1 crash, <= 1 fault per behaviour in the TLC-driven replays (the TLAPS proof has no such "
+             "bounds but is about the specification only); crash = threads abandoned at the hook (in-process) or SIGKILL of a child; "
              "no fsync / power-loss modelling (outside the property); trusted: TLC, the hook placement.",
         technique="TLA+ model of the write protocol; TLC-generated crash/fault/schedule behaviours forced through the real store via hooks",
         engine="tlc+vh",
@@ -261,7 +273,7 @@ CHECKS = {
              "every call is specified to succeed with a result that is a function of its arguments only. TLC enumerates all "
              "histories that touch that state and the harness runs each in a fresh process. Value faithfulness reuses "
              "Schema.tla: for every inhabitant TLC enumerates, a Go value is constructed independently of bindnode and "
-             "Wrap / Unwrap / Marshal / Unmarshal are compared with the specified views and with the constructed value.",
+             "Wrap / Unwrap / Marshal / Unmarshal are compared with the specified views and with the constructed value. The first inferred bind of 240 fresh Go types is also made from several goroutines at once under the race detector (bindrace), and the catalogue values are bound a second time through Go types holding a custom-converted type at every kind of position.",
         design_ref="DESIGN.md section 4, C19",
         note="Go-type vocabulary = a hand-written library (exploration by enumeration for that dimension); trusted: TLC, "
              "reflect, harness.",
